@@ -34,7 +34,7 @@ class Ctx(object):
         self.atoms = {}      # key string -> structure
         self.max_terms = max_terms
         import time
-        self.deadline = (time.time() + seconds) if seconds else None
+        self.deadline = (time.process_time() + seconds) if seconds else None
         self.defs = {}       # canonical body text -> name of its definition atom
         self._fp = {}
         self.alias = {}      # definition atom -> +-(older definition atom) proved equal to it
@@ -70,7 +70,7 @@ class Ctx(object):
             raise Budget('polynomial with %d terms' % len(p.t))
         if self.deadline is not None:
             import time
-            if time.time() > self.deadline:
+            if time.process_time() > self.deadline:
                 raise Budget('time budget exhausted')
         return p
 
@@ -493,12 +493,12 @@ class Ctx(object):
         """prove_zero under a small budget of its own (used while searching for equal temporaries: giving up only loses a shortcut)"""
         import time
         saved = self.deadline
-        mine = time.time() + seconds
+        mine = time.process_time() + seconds
         self.deadline = mine if saved is None else min(saved, mine)
         try:
             return self.prove_zero(e)[0]
         except Budget:
-            if saved is not None and time.time() > saved:
+            if saved is not None and time.process_time() > saved:
                 raise
             return False
         finally:
